@@ -2929,6 +2929,11 @@ HPgetdiskblock(filerec_t *file_rec, int32 block_size, int moveto)
     if (file_rec == NULL || block_size < 0)
         HGOTO_ERROR(DFE_ARGS, FAIL);
 
+    /* offsets are 32-bit signed in the file format: refuse a block that would
+       push the end of the file (plus the pad byte written at close) past 2^31-1 */
+    if (block_size >= INT32_MAX - file_rec->f_end_off)
+        HGOTO_ERROR(DFE_BADLEN, FAIL);
+
 #ifdef DISKBLOCK_DEBUG
     block_size += (DISKBLOCK_HSIZE + DISKBLOCK_TSIZE);
     /* get the offset of the allocated block */
